@@ -142,6 +142,13 @@ func (t *Transformer) maybeRecursivelyMangle(mangler Mangler, state *transformMa
 			ft = ft.Elem()
 		}
 
+		// the element type of a slice, array or pointer may be a
+		// TextUnmarshaler too (e.g. []time.Time); rebuilding it would
+		// lose its methods.
+		if ft.Implements(textMReflectType) || reflect.PointerTo(ft).Implements(textMReflectType) {
+			continue
+		}
+
 		fieldTransformer := Transformer{
 			manglers: []Mangler{mangler},
 			mState:   nil,
